@@ -14,8 +14,9 @@ def mc_timer_driver(v, wd, tier):
         v.spec_violation("TimerDriver", r)
 
 
-def family(v, wd, prop, name, tasks, progs, max_t, spawn="both", mc=True, what="", module="Gen_AsyncMod"):
-    consts = f"Tasks <- TasksN NT = {tasks} Progs <- {progs} MaxT = {max_t}"
+def family(v, wd, prop, name, tasks, progs, max_t, spawn="both", mc=True, what="", module="Gen_AsyncMod", tol=0, tick_ns=1_000_000_000,
+           pe_forward=False):
+    consts = f"Tasks <- TasksN NT = {tasks} Progs <- {progs} MaxT = {max_t} Tol = {tol}"
     beh = os.path.join(wd, f"beh_{name}.txt")
     props = "PROPERTIES NoAdvanceWhileRunnable TimeMonotone\n" if mc else ""
     inv = "ObsTimesOrdered Emit" if mc else "Emit"
@@ -26,7 +27,8 @@ def family(v, wd, prop, name, tasks, progs, max_t, spawn="both", mc=True, what="
     v.add_tlc(f"AsyncMod contract [{name}]", g, consts)
     shards, total = vlib.shard_lines(beh, wd, vlib.NCPU, prefix=f"sh_{name}_")
     log(f"[{prop}] Gen_AsyncMod[{name}]: {total} program assignments in {g.wall:.1f}s")
-    outs = vlib.run_vh_parallel([["asyncm", "replay", s, "--max-t", str(max_t), "--spawn", spawn] for s in shards if os.path.getsize(s) > 0])
+    extra = ["--tick-ns", str(tick_ns)] + (["--pe-forward", "1"] if pe_forward else [])
+    outs = vlib.run_vh_parallel([["asyncm", "replay", s, "--max-t", str(max_t), "--spawn", spawn] + extra for s in shards if os.path.getsize(s) > 0])
     tot = vlib.collect(v, outs, "asyncm", f"running async programs [{name}]")
     v.cov["traces_validated_against_impl"] += int(tot.get("replays", 0))
     v.cov["evaluations"] += int(tot.get("checks", 0))
@@ -43,7 +45,7 @@ def family(v, wd, prop, name, tasks, progs, max_t, spawn="both", mc=True, what="
         local = bool(m.get("spawn_local"))
         # scenario predicate for the recorded spawn_local finding: more than 61 polls of spawn_local tasks become
         # runnable within one instant (LocalSet's fixed per-tick budget)
-        many = int(m.get("tasks", 0)) > 50 or "1..40" in progs
+        many = int(m.get("tasks", 0)) > 50
         v.add_violation(f"[{name}{', spawn_local' if local else ''}] {m.get('field')}: task {m.get('task')} expected {json.dumps(m.get('expected'))} "
                         f"got {json.dumps(m.get('got'))}", {k: x for k, x in m.items() if k != "got_obs"},
                         {"suite": "asyncm", "spawn_local": local, "more_than_61_local_polls_in_one_instant": local and many})
@@ -59,6 +61,8 @@ def c05(tier):
     family(v, wd, "C05", "timers1", 2, "ProgsT1", 14, what="one timer step per task + trailing sleep")
     family(v, wd, "C05", "timers2", 2, "ProgsT2", 16, what="two timer steps per task (13 kinds: sleep, timeout, select, reset, poll-and-drop) + trailing sleep")
     family(v, wd, "C05", "interval", 1, "ProgsIvl", 24, what="interval with Burst / Delay / Skip and sleeps that miss ticks")
+    family(v, wd, "C05", "interval_ms", 1, "ProgsIvlMs", 120, tol=5, tick_ns=1_000_000,
+           what="10 ms interval on a millisecond grid: ticks picked up <= 5 ms late (not missed) and later (missed)")
     family(v, wd, "C05", "chan", 2, "ProgsChan", 14, what="timeouts around receives, module-to-task messages")
     family(v, wd, "C05", "life", 2, "ProgsLife", 16, what="module restarted from a task while another task has timers pending")
     if tier == "thorough":
@@ -83,6 +87,11 @@ def c06(tier):
     for n in ([3, 62, 130] if tier == "quick" else [3, 62, 130, 700]):
         family(v, wd, "C06", f"fan{n}", n, "ProgsFan", 6, mc=(n <= 10), what=f"one task wakes {n - 1} others in one poll", module="Gen_AsyncFam")
         family(v, wd, "C06", f"same_deadline{n}", n, "ProgsSameDeadline", 6, mc=False, what=f"{n} timers expiring at the same instant", module="Gen_AsyncFam")
+    for n in ([62, 130] if tier == "quick" else [62, 130, 700]):
+        family(v, wd, "C06", f"fan_restart{n}", n, "ProgsFanRestart", 8, mc=False, module="Gen_AsyncFam",
+               what=f"fan-out of {n - 1} wake-ups in the second incarnation of a restarted module")
+    family(v, wd, "C06", "chan_pe", 2, "ProgsChan", 14, mc=False, pe_forward=True,
+           what="module-to-task messages forwarded by a processing element that consumes them (the handler never runs)")
     family(v, wd, "C06", "drain", 3, "ProgsDrain", 6, mc=False, what="40 sends in one poll, 40 receives in one poll", module="Gen_AsyncFam")
     family(v, wd, "C06", "chan", 2, "ProgsChan", 14, what="small exhaustive menus with channels")
     v.cov["rule"] = ("families in which many polls become runnable inside one simulated instant: wake chains (task i wakes i+1), fan-out, many "
@@ -100,7 +109,8 @@ def _replay(prop, path):
     p = os.path.join(wd, "beh.txt")
     with open(p, "w") as fh:
         fh.write(json.dumps(d.get("behaviour")) + "\n")
-    out = vlib.run_vh_parallel([["asyncm", "replay", p, "--max-t", str(d.get("max_t", 16)),
+    out = vlib.run_vh_parallel([["asyncm", "replay", p, "--max-t", str(d.get("max_t", 16)), "--tick-ns", str(d.get("tick_ns", 1_000_000_000)),
+                                 "--pe-forward", "1" if d.get("pe_forward") else "0",
                                  "--spawn", "local" if d.get("spawn_local") else "spawn"]])[0]
     for m in out.get("mismatches", []):
         m.pop("behaviour", None)
